@@ -171,3 +171,39 @@ Proof.
 Qed.
 
 End ExecSound.
+
+(* ---- schedules all of whose steps satisfy an arbitrary decidable guard *)
+Section ExecGuard.
+Variable Data : Type.
+Variable prog : tid -> op Data.
+Variable d0 : Data.
+Variable hl : bool.
+Variable n : nat.
+Variable okb : state Data -> elabel -> bool.
+Variable ok : state Data -> label -> Prop.
+Hypothesis okb_ok : forall s l, okb s l = true -> ok s (erase l).
+
+Fixpoint exec_run_g (s : state Data) (ls : list elabel) : option (state Data) :=
+  match ls with
+  | [] => Some s
+  | l :: r => if okb s l then match exec_step prog hl n s l with Some s' => exec_run_g s' r | None => None end else None
+  end.
+
+Lemma exec_run_g_sound ls : forall s s',
+  reach Data prog d0 hl ok s -> bounded Data n s -> exec_run_g s ls = Some s' ->
+  reach Data prog d0 hl ok s' /\ bounded Data n s'.
+Proof.
+  induction ls as [|l r IH]; intros s s' R B H; simpl in H.
+  - inv H. auto.
+  - destruct (okb s l) eqn:G; try discriminate.
+    destruct (exec_step prog hl n s l) as [s1|] eqn:E; try discriminate.
+    destruct (exec_step_sound Data prog hl n _ _ _ B E) as [S1 S2].
+    eapply IH; [|exact S2|exact H]. eapply reach_step; eauto.
+Qed.
+
+Theorem exec_g_from_init ls s :
+  exec_run_g (init Data d0) ls = Some s -> reach Data prog d0 hl ok s /\ bounded Data n s.
+Proof.
+  intros H. eapply exec_run_g_sound; eauto; [constructor|intros u _; reflexivity].
+Qed.
+End ExecGuard.
